@@ -163,11 +163,11 @@ theorem write_roundtrip (S2F : List Char → Except PyErr Nat) (v : Variant) (hv
   obtain ⟨hlen, val, hdec, hpk, _⟩ := valueBytes_roundtrip S2F t x vb hvb
   rw [← hfmt] at hvb hdec
   obtain ⟨⟨i1, i2, i3, i4, i5, i6, i7, i8⟩, hdown, hinit, hupd, hbn, hbi, hrw, hty, hidr, hdev, hdty, hdrw⟩ := hr
-  rcases s with ⟨⟨toc, useV2, updV2, ini, isU, vals, q, cur, lk, pat, pend, ncb, gcb, acb, ncl, gcl⟩, dev, down⟩
+  rcases s with ⟨⟨toc, useV2, updV2, ini, isU, vals, q, cur, lk, pat, pend, ncb, gcb, acb, ncl, gcl, con⟩, dev, down⟩
   simp only at i1 i2 i3 i4 i5 i6 i7 i8 hdown hinit hupd hbn hbi hidr hdev
   subst i1 i2 i3 i4 i5 i7 i8 hdown hinit hupd
   simp only
-  let h0 : Host := ⟨toc, dev.v2, dev.v2, true, true, vals, [], none, false, none, [], ncb, gcb, acb, ncl, gcl⟩
+  let h0 : Host := ⟨toc, dev.v2, dev.v2, true, true, vals, [], none, false, none, [], ncb, gcb, acb, ncl, gcl, con⟩
   let p : Pkt := { chan := 2, data := leBytes (idWidth dev.v2) e.ident ++ vb }
   -- 1. the call queues the packet
   have h1 : setValue S2F h0 [e.group, e.name] x false = (enqueue h0 p, [.enq p none]) := by
@@ -175,7 +175,7 @@ theorem write_roundtrip (S2F : List Char → Except PyErr Nat) (v : Variant) (hv
       rw [setValuePkt_elem S2F h0 _ e x (elemByName_of hbn hbi) hrw hidr, hvb]
     simp only [setValue, gate, h0, if_true, hp]
   -- 2.-3. the updater takes it and transmits; the device stores the value and answers
-  let hA : Host := ⟨toc, dev.v2, dev.v2, true, true, vals, [], none, true, some (lockPatternOf dev.v2 p), [], ncb, gcb, acb, ncl, gcl⟩
+  let hA : Host := ⟨toc, dev.v2, dev.v2, true, true, vals, [], none, true, some (lockPatternOf dev.v2 p), [], ncb, gcb, acb, ncl, gcl, con⟩
   have hdevh := Dev.write_ok dev e.ident dp t vb hidr hdev hdty hdrw hlen
   -- 4. the reply releases the lock and updates the cache
   have hlp : lockPatternOf dev.v2 p = relPattern dev.v2 p := by
@@ -183,7 +183,7 @@ theorem write_roundtrip (S2F : List Char → Except PyErr Nat) (v : Variant) (hv
     simp only [lockPatternOf, relPattern, l1, l2, l3, l5, l6, gen_write_channel.2.2.1, show ¬ (p.chan = 3) from (by show ¬ ((2 : Nat) = 3); decide), if_false]
   have hpu : paramUpdated hA p = .ok ({ hA with values := (e.group, e.name, val) :: vals }, fanout hA e.group e.name val) :=
     paramUpdated_reply 2 (by decide) hA e vb val hidr hbi hdec rfl
-  let hB : Host := ⟨toc, dev.v2, dev.v2, true, true, (e.group, e.name, val) :: vals, [], none, false, none, [], ncb, gcb, acb, ncl, gcl⟩
+  let hB : Host := ⟨toc, dev.v2, dev.v2, true, true, (e.group, e.name, val) :: vals, [], none, false, none, [], ncb, gcb, acb, ncl, gcl, con⟩
   have hfo : fanout hA e.group e.name val = fanout h0 e.group e.name val := rfl
   have hrx : rx v hA p = (hB, .rxd p :: (fanout h0 e.group e.name val ++ [.released p] ++ [])) := by
     have hur : updaterRx hA p = (hB, fanout h0 e.group e.name val ++ [.released p], p) := by
@@ -207,7 +207,7 @@ theorem write_roundtrip (S2F : List Char → Except PyErr Nat) (v : Variant) (hv
     have hg : updGet (enqueue h0 p) = some { h0 with cur := some p, queue := [] } := rfl
     have hsnd : updSend { h0 with cur := some p, queue := [] } = some (hA, [.tx p]) := rfl
     simp only [Sys.run, Sys.step, Api.run]
-    rw [show setValue S2F ⟨toc, dev.v2, dev.v2, true, true, vals, [], none, false, none, [], ncb, gcb, acb, ncl, gcl⟩ [e.group, e.name] x false
+    rw [show setValue S2F ⟨toc, dev.v2, dev.v2, true, true, vals, [], none, false, none, [], ncb, gcb, acb, ncl, gcl, con⟩ [e.group, e.name] x false
       = (enqueue h0 p, [.enq p none]) from h1]
     simp only [hg, Option.map_some, hsnd, List.nil_append]
     rw [show dev.handle p = (dev.setValue e.ident vb, [p]) from hdevh]
@@ -265,11 +265,11 @@ theorem read_roundtrip (S2F : List Char → Except PyErr Nat) (v : Variant) (hv 
     unfold unpack1
     rw [hfmt, hpf, unpack1_of_length (by cases t <;> rfl) dp.value (by rw [hr.width]; cases t <;> rfl)]
   obtain ⟨⟨i1, i2, i3, i4, i5, i6, i7, i8⟩, hdown, hupd, hbn, hbi, hty, hidr, hdev, hwid⟩ := hr
-  rcases s with ⟨⟨toc, useV2, updV2, ini, isU, vals, q, cur, lk, pat, pend, ncb, gcb, acb, ncl, gcl⟩, dev, down⟩
+  rcases s with ⟨⟨toc, useV2, updV2, ini, isU, vals, q, cur, lk, pat, pend, ncb, gcb, acb, ncl, gcl, con⟩, dev, down⟩
   simp only at i1 i2 i3 i4 i5 i6 i7 i8 hdown hupd hbn hbi hidr hdev
   subst i1 i2 i3 i4 i5 i7 i8 hdown hupd
   simp only
-  let h0 : Host := ⟨toc, dev.v2, dev.v2, ini, true, vals, [], none, false, none, [], ncb, gcb, acb, ncl, gcl⟩
+  let h0 : Host := ⟨toc, dev.v2, dev.v2, ini, true, vals, [], none, false, none, [], ncb, gcb, acb, ncl, gcl, con⟩
   let p : Pkt := { chan := 1, data := leBytes (idWidth dev.v2) e.ident }
   let rep : Pkt := { chan := 1, data := leBytes (idWidth dev.v2) e.ident ++ (if dev.v2 then [0] else []) ++ dp.value }
   have hlen : (leBytes (idWidth dev.v2) e.ident).length = idWidth dev.v2 := leBytes_length _ _
@@ -278,7 +278,7 @@ theorem read_roundtrip (S2F : List Char → Except PyErr Nat) (v : Variant) (hv 
     simp only [requestUpdate, elementId, hbn', Option.map_some, idBytes_ok gen_set_id_fmts.2.2.1 gen_set_id_fmts.2.2.2 hidr,
       gen_write_channel.2.1]
     rfl
-  let hA : Host := ⟨toc, dev.v2, dev.v2, ini, true, vals, [], none, true, some (lockPatternOf dev.v2 p), [], ncb, gcb, acb, ncl, gcl⟩
+  let hA : Host := ⟨toc, dev.v2, dev.v2, ini, true, vals, [], none, true, some (lockPatternOf dev.v2 p), [], ncb, gcb, acb, ncl, gcl, con⟩
   have hdevh : dev.handle p = (dev, [rep]) := by
     have hh : dev.handle p = dev.read p.data := by simp [Dev.handle, p]
     rw [hh]
@@ -335,7 +335,7 @@ theorem read_roundtrip (S2F : List Char → Except PyErr Nat) (v : Variant) (hv 
   have hpu : paramUpdated hA { chan := 1, data := leBytes (idWidth dev.v2) e.ident ++ dp.value } =
       .ok ({ hA with values := (e.group, e.name, val) :: vals }, fanout hA e.group e.name val) :=
     paramUpdated_reply 1 (by decide) hA e dp.value val hidr hbi hdec rfl
-  let hB : Host := ⟨toc, dev.v2, dev.v2, ini, true, (e.group, e.name, val) :: vals, [], none, false, none, [], ncb, gcb, acb, ncl, gcl⟩
+  let hB : Host := ⟨toc, dev.v2, dev.v2, ini, true, (e.group, e.name, val) :: vals, [], none, false, none, [], ncb, gcb, acb, ncl, gcl, con⟩
   have hrx : rx v hA rep = (hB, .rxd rep :: (fanout h0 e.group e.name val ++ [.released rep] ++ [])) := by
     have hur : updaterRx hA rep = (hB, fanout h0 e.group e.name val ++ [.released rep],
         { chan := 1, data := leBytes (idWidth dev.v2) e.ident ++ dp.value }) := by
@@ -355,7 +355,7 @@ theorem read_roundtrip (S2F : List Char → Except PyErr Nat) (v : Variant) (hv 
   · have hg : updGet (enqueue h0 p) = some { h0 with cur := some p, queue := [] } := rfl
     have hsnd : updSend { h0 with cur := some p, queue := [] } = some (hA, [.tx p]) := rfl
     simp only [Sys.run, Sys.step, Api.run]
-    rw [show requestUpdate ⟨toc, dev.v2, dev.v2, ini, true, vals, [], none, false, none, [], ncb, gcb, acb, ncl, gcl⟩ [e.group, e.name] dev.v2
+    rw [show requestUpdate ⟨toc, dev.v2, dev.v2, ini, true, vals, [], none, false, none, [], ncb, gcb, acb, ncl, gcl, con⟩ [e.group, e.name] dev.v2
       = (enqueue h0 p, [.enq p none]) from h1]
     simp only [hg, Option.map_some, hsnd, List.nil_append]
     rw [hdevh]
